@@ -108,6 +108,10 @@ type verifC06Env struct {
 	// addresses whose account was removed since the last commit / revert to zero (see verifC06KnownRecreate)
 	removedSinceCommit map[int]bool
 
+	// accounts were written with ImportAccount (which bypasses the journal) since the last commit / revert to zero /
+	// rollback: only a revert to zero (or a commit) is a defined way out, see opImport
+	importsPending bool
+
 	opAddr []int                 // parallel to ops: the address index the operation touched
 	held   map[int]*verifC06Held // account instances the "caller" still holds, by address index
 }
@@ -293,10 +297,46 @@ func (e *verifC06Env) checkCodeEntries(after string) {
 		case want > 0 && !bytes.Equal(entry.Code, code):
 			e.c.Violation("C07:wrong-code-bytes", "after %s: code entry %d holds other bytes than the code [%s]", after, ci, e.traceText())
 		}
-		if want > 0 {
-			if got := e.f.Adb.GetCode(h); !bytes.Equal(got, code) {
-				e.c.Violation("C07:getcode-mismatch", "after %s: GetCode(hash of code %d) = %x, want %x [%s]", after, ci, got, code, e.traceText())
+		// GetCode is the reading side of the code entries (VM, scProcessor): it is asked for every code of the case
+		// after every step, i.e. also before the revert/removal that drops an entry - a read must not change a later answer
+		got := e.f.Adb.GetCode(h)
+		if want > 0 && !bytes.Equal(got, code) {
+			e.c.Violation("C07:getcode-mismatch", "after %s: GetCode(hash of code %d) = %x, want %x [%s]", after, ci, got, code, e.traceText())
+		}
+		if want == 0 && len(got) != 0 {
+			e.c.Violation("C07:getcode-without-referrer", "after %s: GetCode(hash of code %d) returns %x although no account refers to that code and it has no entry [%s]", after, ci, got, e.traceText())
+		}
+	}
+	// the same invariant read from the accounts themselves (no reference model): every code hash carried by an account
+	// of the case has an entry whose counter is the number of accounts carrying it
+	carried := map[string]int{}
+	var order []string
+	for i, addr := range e.addrs {
+		acc, err := e.f.Adb.GetExistingAccount(addr)
+		if err == state.ErrAccNotFound {
+			continue
+		}
+		if err != nil {
+			e.rt.Fatalf("fixture: GetExistingAccount(a%d): %v [%s]", i, err, e.traceText())
+		}
+		if ch := acc.(state.UserAccountHandler).GetCodeHash(); len(ch) > 0 {
+			if carried[string(ch)] == 0 {
+				order = append(order, string(ch))
 			}
+			carried[string(ch)]++
+		}
+	}
+	for _, ch := range order {
+		entry, err := state.GetCodeEntry([]byte(ch), tr, e.f.Marsh)
+		e.fixture(err, "GetCodeEntry")
+		if entry == nil {
+			e.c.Violation("C07:account-refers-to-missing-entry", "after %s: %d account(s) carry code hash %x but there is no code entry under it (GetCode returns %x) [%s]", after, carried[ch], ch, e.f.Adb.GetCode([]byte(ch)), e.traceText())
+		}
+		if int(entry.NumReferences) != carried[ch] {
+			e.c.Violation("C07:wrong-reference-count", "after %s: code hash %x NumReferences=%d, accounts carrying it: %d [%s]", after, ch, entry.NumReferences, carried[ch], e.traceText())
+		}
+		if !bytes.Equal(e.f.Hasher.Compute(string(entry.Code)), []byte(ch)) || !bytes.Equal(e.f.Adb.GetCode([]byte(ch)), entry.Code) {
+			e.c.Violation("C07:wrong-code-bytes", "after %s: entry under %x holds bytes with another hash, or GetCode disagrees with the entry [%s]", after, ch, e.traceText())
 		}
 	}
 }
@@ -559,11 +599,14 @@ func (e *verifC06Env) opRemove() {
 			}
 			e.fixture(rerr, "RevertToSnapshot")
 		}
-		if jl == 0 { // revert to zero recreates the committed state and drops the journal
+		if jl == 0 { // revert to zero recreates the committed state (pending imports included) and drops the journal
 			e.stack = nil
 			e.ops = nil
 			e.opAddr = nil
 			e.held = map[int]*verifC06Held{}
+			e.model = e.committed.clone()
+			e.importsPending = false
+			obsBefore, rootBefore = e.commitObs, e.commitRoot
 		}
 		e.checkRestored(obsBefore, rootBefore, fmt.Sprintf("RevertToSnapshot(%d) following a rejected RemoveAccount", jl), "rejected-remove")
 		e.afterStep("revert of rejected remove")
@@ -580,7 +623,49 @@ func (e *verifC06Env) opRemove() {
 	e.afterStep("remove")
 }
 
+// opImport writes a plain account (no code, no storage) at an address that holds none with AccountsDB.ImportAccount,
+// the entry point of the hardfork state import (update/genesis stateImport.unMarshalAndSaveAccount): it stores the
+// account record in the main trie without journalling. Like there, it is used only while the journal is empty (before
+// any SaveAccount/RemoveAccount of the block/import). The journal cannot undo an import, so no journal length is
+// recorded while imports are pending; the two defined continuations are Commit (the import becomes part of the
+// committed state) and RevertToSnapshot(0), which must bring back the last committed state.
+func (e *verifC06Env) opImport() {
+	if e.f.Adb.JournalLen() != 0 {
+		e.opMutateSave()
+		return
+	}
+	ai := rapid.IntRange(0, len(e.addrs)-1).Draw(e.rt, "acc")
+	found := false
+	for d := 0; d < len(e.addrs); d++ {
+		if _, ok := e.model[(ai+d)%len(e.addrs)]; !ok {
+			ai, found = (ai+d)%len(e.addrs), true
+			break
+		}
+	}
+	if !found {
+		e.opMutateSave()
+		return
+	}
+	acc, err := state.NewUserAccount(verifSAClone(e.addrs[ai]))
+	e.fixture(err, "NewUserAccount")
+	nonce := uint64(rapid.IntRange(0, 5).Draw(e.rt, "importNonce"))
+	bal := new(big.Int).SetBytes(verifSAGenBytes(e.rt, 0, 10, "importBalance"))
+	acc.IncreaseNonce(nonce)
+	e.fixture(acc.AddToBalance(bal), "AddToBalance")
+	e.logf("import a%d nonce=%d bal=%s", ai, nonce, bal.String())
+	e.fixture(e.f.Adb.ImportAccount(acc), "ImportAccount")
+	e.model[ai] = &verifC06Acc{nonce: nonce, balance: bal, devReward: big.NewInt(0), storage: map[string][]byte{}}
+	delete(e.held, ai)
+	e.importsPending = true
+	e.c.Class("op-import")
+	e.afterStep("import")
+}
+
 func (e *verifC06Env) opSnapshot() {
+	if e.importsPending {
+		e.c.Class("op-snapshot-skipped-imports-pending")
+		return
+	}
 	obs, root := e.observe()
 	e.sanity(obs, "snapshot")
 	jl := e.f.Adb.JournalLen()
@@ -619,6 +704,7 @@ func (e *verifC06Env) opRevert() {
 		// RevertToSnapshot(0) recreates the tries from storage without running the journal: instances loaded
 		// before are detached from the new tries
 		e.held = map[int]*verifC06Held{}
+		e.importsPending = false
 	} else {
 		e.dropHeldAfterRevert(s.opIndex)
 	}
@@ -666,6 +752,7 @@ func (e *verifC06Env) opCommit() {
 	e.ops = nil
 	e.committed = e.model.clone()
 	e.removedSinceCommit = map[int]bool{}
+	e.importsPending = false
 	e.opAddr = nil
 	e.held = map[int]*verifC06Held{} // Commit drops the data-trie cache: callers load accounts again
 	e.c.Class("op-commit")
@@ -713,6 +800,7 @@ func (e *verifC06Env) opRollback() {
 	e.opAddr = nil
 	e.held = map[int]*verifC06Held{}
 	e.removedSinceCommit = map[int]bool{}
+	e.importsPending = false
 	e.classifyRefDrop(before, "rollback")
 	e.afterStep("rollback")
 }
@@ -739,6 +827,7 @@ func (e *verifC06Env) opRevertZero() {
 	e.opAddr = nil
 	e.held = map[int]*verifC06Held{}
 	e.removedSinceCommit = map[int]bool{}
+	e.importsPending = false
 	e.c.Class("op-revert-zero")
 	if e.mode == "C06" && undone.storage && undone.sharedCode && undone.createRemove {
 		e.nonTrivial = true
@@ -791,7 +880,7 @@ func verifC06Program(rt *rapid.T, c *kit.Case, mode string) {
 	steps := rapid.IntRange(1, 40).Draw(rt, "steps")
 	e.opSnapshot() // journal length 0 / the state at the start
 	for s := 0; s < steps; s++ {
-		switch op := rapid.IntRange(0, 25).Draw(rt, "op"); {
+		switch op := rapid.IntRange(0, 27).Draw(rt, "op"); {
 		case op < 14:
 			e.opMutateSave()
 		case op < 17:
@@ -804,6 +893,8 @@ func verifC06Program(rt *rapid.T, c *kit.Case, mode string) {
 			e.opCommit()
 		case op < 25:
 			e.opRollback()
+		case op < 27:
+			e.opImport()
 		default:
 			e.opRevertZero()
 		}
@@ -823,7 +914,7 @@ func verifC06Program(rt *rapid.T, c *kit.Case, mode string) {
 
 func TestVerifC06_RevertRestoresObservation(t *testing.T) {
 	kit.Run(t, "C06", kit.Budget{Quick: 2000, Thorough: 40000},
-		"histories of <=40 steps over 3-6 accounts, 2-6 storage keys, 3 shared code blobs on a real AccountsDB (pruning-enabled storage manager, eviction waiting list size 1..100): load-or-reuse-held-instance, mutate, save (balance, nonce, owner, metadata, SetCode shared/nil/empty, storage writes and deletes; the instance of the previous save of an address is re-used half of the time, also after a partial journal revert), remove, snapshot (JournalLen), nested revert, commit, rollback (RecreateTrie to the root of any earlier commit of the case, which becomes the last committed state), revert to 0; oracle = everything observable through GetExistingAccount/RetrieveValue/GetCode/RootHash recorded when the journal length was taken equals the observation after the revert; non-trivial = one revert undoes a storage write, a change of a code shared with another account and an account creation or removal together",
+		"histories of <=40 steps over 3-6 accounts, 2-6 storage keys, 3 shared code blobs on a real AccountsDB (pruning-enabled storage manager, eviction waiting list size 1..100): load-or-reuse-held-instance, mutate, save (balance, nonce, owner, metadata, SetCode shared/nil/empty, storage writes and deletes; the instance of the previous save of an address is re-used half of the time, also after a partial journal revert), remove, snapshot (JournalLen), nested revert, commit, rollback (RecreateTrie to the root of any earlier commit of the case, which becomes the last committed state), ImportAccount of plain accounts while the journal is empty (undone only by revert to 0), revert to 0; oracle = everything observable through GetExistingAccount/RetrieveValue/GetCode/RootHash recorded when the journal length was taken equals the observation after the revert; non-trivial = one revert undoes a storage write, a change of a code shared with another account and an account creation or removal together",
 		func(rt *rapid.T, c *kit.Case) { verifC06Program(rt, c, "C06") })
 }
 
